@@ -284,6 +284,7 @@ def run(ctx):
 
     check_catalog_merge(ctx, prog)
     check_quoted_values(ctx, prog)
+    check_construction_absorptance(ctx, prog)
     # ---------------- D4
     from ..spec.bdl_schema import ROWS
     now = attr_rows(prog)
@@ -561,6 +562,72 @@ def check_quoted_values(ctx, prog, rule="c18.quoted"):
             else:
                 ctx.ok(rule, key, "a value written in quotes is stored as text on a path of its own, or no quote is ever removed before the number test", sc.fn.loc(t.get("ln")))
     ctx.floor(rule, "AttrMap::insert calls in parse_attributes", n, 1)
+
+
+def check_construction_absorptance(ctx, prog, rule="c18.typed"):
+    """"the typed elements built from the blocks carry the written values": Data::new merges every CONSTRUCTION block with the LAYERS block it names into the
+    wall-construction table.  ABSORPTANCE is written on the CONSTRUCTION, so on every path through the body of the loop over the constructions that goes on to
+    the next one (error exits leave the loop) the construction's absorptance has to be stored; a path that stores nothing leaves the LAYERS entry with the
+    default 0.6 (old LIDER files name a construction like its layers: "forBaja" in 06_adosado.cte, and that is the branch that skipped it)."""
+    from ..loops import classify_loops
+    fn = prog.find("hulc::bdl::Data::new")
+    sc = Scope(prog, fn)
+    body = fn.body
+    loops = [i for i in classify_loops(prog, fn) if i["kind"] == "iterator" and (i.get("source") or "").split(".")[-1] == "constructions"]
+    ctx.require(len(loops) == 1, "Data::new: the loop over the CONSTRUCTION blocks was not found (%d candidates)" % len(loops))
+    info = loops[0]
+    blocks, h = set(info["blocks"]), info["header"]
+    use = set()
+    for b in blocks:
+        for st in body.blocks[b]["st"]:
+            if st["s"] == "assign" and isinstance(st["p"], dict) and any(str(x).endswith("absorptance") for x in st["p"].get("p", [])):
+                if "absorptance" in show(strip(sc.rvalue(st["rv"]))) and "constructions" in show(strip(sc.rvalue(st["rv"]))):
+                    use.add(b)
+    # the body is entered at the Some arm of next(): start from every block that follows a next() call of this loop
+    starts = [t.get("to") for b in blocks for t in [body.blocks[b]["term"]] if t["t"] == "call" and short_callee(callee_name(t) or "") == "next" and t.get("to") in blocks]
+    ctx.require(starts, "Data::new: next() of the constructions loop not found")
+    # a lookup that already succeeded in this iteration (`layers.get_mut(&cons.layers).ok_or_else(..)?`) succeeds again: the None arm of a second
+    # `if let Some(..) = layers.get_mut(&cons.layers)` is not a path
+    looked = {}
+    for b in sorted(blocks):
+        t = body.blocks[b]["term"]
+        if t["t"] == "call" and short_callee(callee_name(t) or "") in ("get", "get_mut") and len(t["args"]) == 2:
+            looked.setdefault(show(strip(sc.operand(t["args"][0]))) + "|" + show(strip(sc.operand(t["args"][1]))), []).append((b, t))
+    infeasible = set()
+    for k_, lst in looked.items():
+        if len(lst) < 2:
+            continue
+        (b1, t1) = lst[0]
+        for (b2, t2) in lst[1:]:
+            nb = t2.get("to")
+            if nb is None or body.blocks[nb]["term"]["t"] != "switch":
+                continue
+            tt = body.blocks[nb]["term"]
+            arms = tt["arms"]
+            none_t = [tg for v, tg in arms if v == "0"] or ([tt["else"]] if [v for v, _ in arms] == ["1"] and tt.get("else") is not None else [])
+            if none_t and body.dominates(b1, b2):
+                infeasible.add((nb, none_t[0]))
+    seen, todo, skipped = set(), list(starts), False
+    while todo:
+        b = todo.pop()
+        if b in seen or b in use:
+            continue
+        seen.add(b)
+        for s_ in body.succs(b):
+            if (b, s_) in infeasible:
+                continue
+            if s_ == h and b not in starts:
+                skipped = True
+            elif s_ in blocks and s_ != h:
+                todo.append(s_)
+    key = "%s|Construction.ABSORPTANCE" % rule
+    if not use:
+        ctx.violation(rule, key, "the absorptance written on a CONSTRUCTION block is never stored in the wall-construction table", fn.loc(info["line"]))
+    elif skipped:
+        ctx.violation(rule, key, "a path through the loop over the CONSTRUCTION blocks reaches the next construction without storing this one's ABSORPTANCE (the branch "
+                      "taken when the construction is named like its LAYERS): the table entry keeps the default 0.6", fn.loc(info["line"]))
+    else:
+        ctx.ok(rule, key, "every path through the loop over the CONSTRUCTION blocks stores the construction's ABSORPTANCE in the table entry", fn.loc(info["line"]))
 
 
 def check_parents(ctx, prog, fn, variants, spec, rule="c18.parent"):
